@@ -142,7 +142,7 @@ class Case:
     __slots__ = ('key', 'code', 'meta')
 
     def __init__(self, key, code, meta=None):
-        assert re.match(r'^[A-Za-z0-9_|=,.:<>+\-*/%()\[\]! ]+$', key), key
+        assert re.match(r'^[A-Za-z0-9_|=,.:<>+\-*/%()\[\]!& ]+$', key), key
         self.key, self.code, self.meta = key, code, meta or {}
 
 
